@@ -655,8 +655,16 @@ func (e *exprCtx) expr(v ssa.Value) string {
 				}
 			}
 		}
-		// for unsigned operands `0 < x` is `x != 0` and `x <= 0` is `x == 0`
-		if (op == token.LSS || op == token.LEQ) && isUnsigned(x.X.Type()) {
+		// for unsigned (or otherwise non-negative: len, cap) operands `0 < x` is `x != 0` and `x <= 0` is `x == 0`
+		nonNeg := isUnsigned(x.X.Type())
+		if !nonNeg && (op == token.LSS || op == token.LEQ) {
+			other := x.Y
+			if (x.Op == token.GTR || x.Op == token.GEQ) != (op == token.LEQ) {
+				other = x.X
+			}
+			nonNeg = sigBits(other, 0) < 64
+		}
+		if (op == token.LSS || op == token.LEQ) && nonNeg {
 			if op == token.LSS && a == "0" {
 				return "(0 != " + b + ")"
 			}
